@@ -526,7 +526,7 @@ func fanOut(worker, tmp, id string, seed uint64, n, workers int, hb bool) ([]*re
 			cmd.Dir = tmp
 			cmd.Env = append(os.Environ(), "VERIF_KNOWN="+filepath.Join(verifDir, "known_findings.json"))
 			if hb {
-				cmd.Env = append(cmd.Env, "GORACE=halt_on_error=0 history_size=5 log_path="+filepath.Join(tmp, "race-"+tag), "VERIF_RACELOG="+filepath.Join(tmp, "race-"+tag))
+				cmd.Env = append(cmd.Env, "GORACE=halt_on_error=0 log_path="+filepath.Join(tmp, "race-"+tag), "VERIF_RACELOG="+filepath.Join(tmp, "race-"+tag))
 			}
 			var stderr bytes.Buffer
 			cmd.Stderr = &stderr
@@ -608,7 +608,7 @@ func runReplay(worker, tmp, id, file string, out *bytes.Buffer) int {
 	cmd := exec.Command(worker, "-prop", id, "-replay", file)
 	cmd.Dir = tmp
 	cmd.Env = append(os.Environ(), "VERIF_KNOWN="+filepath.Join(verifDir, "known_findings.json"),
-		"GORACE=halt_on_error=0 history_size=5 log_path="+filepath.Join(tmp, "race-replay"), "VERIF_RACELOG="+filepath.Join(tmp, "race-replay"))
+		"GORACE=halt_on_error=0 log_path="+filepath.Join(tmp, "race-replay"), "VERIF_RACELOG="+filepath.Join(tmp, "race-replay"))
 	var buf bytes.Buffer
 	cmd.Stdout, cmd.Stderr = &buf, &buf
 	err := cmd.Run()
